@@ -27,6 +27,7 @@ def run(prop, gi, g, tier, known, do_replay):
             if ok:
                 T["ok"] += 1
                 T["passed"] += 1
+                T["nontrivial"] = T.get("nontrivial", 0) + 1
             else:
                 path = os.path.join(VERIF, "replays", prop)
                 os.makedirs(path, exist_ok=True)
